@@ -466,6 +466,7 @@ func runC11(c *Ctx) {
 	c.St.Rule = "trees x well-formed paths (existing, partially existing, new; index <, =, > n; scalar / nil / other-kind intermediates) x values of every kind, sequences of 1-30 writes and unsets with whole-heap snapshots; non-trivial = path of >= 2 segments; distinct by (tree, path sequence)"
 	opts := &TreeOpts{MaxDepth: 3, MaxWidth: 4, Keys: r.SimpleKey}
 	c.padDerived()
+	c.writeClearWrite()
 	c.indexSpellings("C11")
 	c.nonASCIIKeysDerived()
 	for i := 0; i < c.N(400, 6000); i++ {
